@@ -35,6 +35,14 @@ def run(rep: Report, repo: Repo):
 
 def initial_value(rep, K):
     rep.rule('C03.init', 'z_cur starts as LUT(all operands 0) = lut & 1; a TMIN entry is stored at position 0 exactly when it is 1; inputs start at 0')
+    # every evaluation ends by writing the terminator behind the last stored edge: no exit from _wave_eval before its last statement
+    rets = [n for n in ast.walk(K.f) if isinstance(n, ast.Return)]
+    okr = len(rets) == 1 and K.f.body[-1] is rets[0]
+    rep.ob('C03.init', '_wave_eval leaves only through its final return (after the terminator store)', okr)
+    if not okr:
+        early = next((r for r in rets if r is not K.f.body[-1]), rets[0] if rets else K.f)
+        rep.violate('C03.init', K.mod, K.f, early, '_wave_eval returns before its last statement: the terminator (TMAX / overflow marker) of the output waveform is not written on '
+                    'that path, so whatever the memory held before (a previous stimulus, another signal) is read as transitions', node=early)
     pro = [cz(s) for s in K.prologue]
     need = ['z_cur=lut&1', 'ifz_cur==1:cbuf[z_mem,sim]=TMIN', 'inputs=int(0)', 'lut=op[0]', 'z_mem=c_locs[z_idx]', 'z_cap=c_caps[z_idx]']
     alt = {'inputs=int(0)': 'inputs=0'}
